@@ -134,7 +134,6 @@ pub mod h_c10 {
 pub mod h_c03 {
     use super::*;
     harnesses! {
-        #[kani::unwind(8)] names_readers_5 => p_names::readers::<_, 5>;
     }
 }
 
@@ -142,6 +141,7 @@ pub mod h_c03 {
 pub mod h_c03_t {
     use super::*;
     harnesses! {
+        #[kani::unwind(8)] names_readers_5 => p_names::readers::<_, 5>;
         #[kani::unwind(9)] names_readers_6 => p_names::readers::<_, 6>;
         #[kani::unwind(11)] names_readers_8 => p_names::readers::<_, 8>;
     }
@@ -180,7 +180,6 @@ pub mod h_c13 {
         #[kani::unwind(40)] synth_build_txt => p_synth::builders::<_, 8>;
         #[kani::unwind(300)] synth_txt_255 => p_synth::txt_chunks::<_, 255>;
         #[kani::unwind(300)] synth_txt_256 => p_synth::txt_chunks::<_, 256>;
-        #[kani::stub(backtrace::backtrace::trace, crate::p_synth::trace_stub)] #[kani::unwind(60)] synth_tpl_ns_lastchar => p_synth::template::<_, 12>;
         #[kani::stub(backtrace::backtrace::trace, crate::p_synth::trace_stub)] #[kani::unwind(60)] synth_tpl_octet_edge => p_synth::template::<_, 2>;
         #[kani::stub(backtrace::backtrace::trace, crate::p_synth::trace_stub)] #[kani::unwind(140)] synth_insert_a_an => p_synth::insert_text::<_, skel_gen::SkRAAaaa, 1, 0>;
         #[kani::stub(backtrace::backtrace::trace, crate::p_synth::trace_stub)] #[kani::unwind(140)] synth_insert_mx_ns => p_synth::insert_text::<_, skel_gen::SkRAAaaa, 2, 5>;
@@ -191,6 +190,7 @@ pub mod h_c13 {
 pub mod h_c13_t {
     use super::*;
     harnesses! {
+        #[kani::stub(backtrace::backtrace::trace, crate::p_synth::trace_stub)] #[kani::unwind(60)] synth_tpl_ns_lastchar => p_synth::template::<_, 12>;
         #[kani::stub(backtrace::backtrace::trace, crate::p_synth::trace_stub)] #[kani::unwind(60)] synth_tpl_ttl_digit => p_synth::template::<_, 0>;
         #[kani::stub(backtrace::backtrace::trace, crate::p_synth::trace_stub)] #[kani::unwind(60)] synth_tpl_ttl_edge => p_synth::template::<_, 1>;
         #[kani::stub(backtrace::backtrace::trace, crate::p_synth::trace_stub)] #[kani::unwind(60)] synth_tpl_separator => p_synth::template::<_, 3>;
